@@ -15,18 +15,18 @@ class C04(Prop):
     claimed = True
     diverge_is_violation = True
     level_text = ("Theorems for every input: the coordinate schedule of sqascii_ReadWindow tiles 1..L on both strands (context = min(C, previous n) preceding residues, new part contiguous, 1-based; reverse windows tile downwards with at most W new residues) for every sequence of (C,W) requests; "
-                  "the line-geometry tracker guarantees what it checks. The executable line-by-line model of the FASTA reader (block size B a parameter) is tied to the working tree by an exact differential run over Read / ReadInfo / ReadSequence / windows on both strands / FASTA round trip x text and digital mode x B in {1,2,3,7,64,4096,random}, "
+                  "the line-geometry tracker guarantees what it checks. The executable line-by-line model of the ascii reader (FASTA, EMBL/UniProt, GenBank/DDBJ, daemon, hmmpgmd, autodetection; block size B a parameter) is tied to the working tree by an exact differential run over Read / ReadInfo / ReadSequence / windows on both strands / ReadBlock (short and long-target) / FASTA round trip x text and digital mode x B in {1,2,3,7,64,4096,random}, "
                   "and agreement monitors (records equal across read paths, block sizes and modes; offsets are the true byte positions; windows reassemble the sequence; reverse strand = reverse complement; write+re-read reproduces the records) give the concrete failing input.")
     level_note = ("Block-size independence, Read/ReadInfo/ReadSequence agreement, true offsets and layout independence are established by the differential run and the monitors, not by a theorem about the whole reader (only the window schedule, the offset arithmetic and the tracker are theorems). "
-                  "FASTA only; EMBL/UniProt/GenBank layouts, ReadBlock, gzip/stdin plumbing are not modelled. Known finding: the bytes/residues-per-line tracker accepts a longer last line (reverse windows then fail) - see known_findings.d/C04.json.")
+                  "FASTA, EMBL/UniProt, GenBank/DDBJ, daemon, hmmpgmd, suffix/first-line autodetection and ReadBlock are inside the model; gzip/stdin plumbing and the alignment-as-sequences branch are not. Known finding: the bytes/residues-per-line tracker accepts a longer last line (reverse windows then fail) - see known_findings.d/C04.json.")
     assumptions = ["fread returns min(B, remaining) bytes; allocation never fails (eslEMEM paths not modelled)",
                    "the model mirrors esl_sqio_ascii.c by hand; fidelity is checked by the differential run only",
-                   "EMBL/UniProt/GenBank/DDBJ layouts, sqascii_ReadBlock, gzip pipe and stdin are outside the model",
+                   "gzip pipe, stdin and alignment files read as sequences are outside the model (monitor only)",
                    "after a failed call the handle is not used again (the API leaves its state unspecified)"]
     technique = ("Lean 4 proofs about an executable line-by-line model of esl_sqio_ascii.c's FASTA reader core and its specification, "
                  "+ exact differential correspondence of the model with the ASan/UBSan build over generated files x read calls x window geometries x read-block sizes, "
                  "+ property monitors on the implementation's output")
-    trusted_base = ["hand model of esl_sqio_ascii.c (loadmem loadbuf nextchar seebuf addbuf skipbuf read_nres header_fasta skip_fasta end_fasta Read ReadInfo ReadSequence ReadWindow Position WriteFasta) tied by exact differential run (h_sqio.c)",
+    trusted_base = ["hand model of esl_sqio_ascii.c (loadmem loadbuf nextchar seebuf addbuf skipbuf read_nres skip_whitespace header/skip/end_{fasta,embl,genbank} end_daemon fileheader_hmmpgmd GuessFileFormat Read ReadInfo ReadSequence ReadWindow ReadBlock Position WriteFasta) tied by exact differential run (h_sqio.c)",
                     "alphabet tables regenerated from esl_alphabet.c on every run (kind G)",
                     "Lean compiler/runtime for the executable driver; gcc; ASan/UBSan"]
     rule = ("cases = generated FASTA files (0..6 records quick / 0..40 thorough, constant or ragged widths, blanks, CRLF, with/without final newline) "
@@ -74,21 +74,63 @@ class C04(Prop):
 
     def cases(self, ctx):
         rng = ctx.rng
-        n = 320 if ctx.tier == "quick" else 4000
+        n = 900 if ctx.tier == "quick" else 8000
         out = []
         for c in range(n):
             kind = rng.choice(["dna", "dna", "dna", "rna", "amino"])
-            data, meta = S.gen_fasta(rng, ctx.tier, kind)
+            layout = rng.random() < 0.45
+            if layout:
+                # constant geometry with 0..3 extra ignorable bytes per line: every window start column, both strands
+                kind = rng.choice(["dna", "dna", "rna"])
+                data, meta = S.gen_fasta_layout(rng, kind)
+                r = meta["width"]
+                ops = ["file ext=fa hex=" + hx(data), "open fmt=fasta abc=text B=%d" % rng.choice(S.BSIZES)] + ["read"] * (len(meta["recs"]) + 1) + ["close"]
+                for s in range(rng.choice([1, 2])):
+                    abc = rng.choice(["text", kind])
+                    ops.append("open fmt=fasta abc=%s B=%d" % (abc, rng.choice(S.BSIZES + [rng.randrange(1, 40)])))
+                    for rc in meta["recs"]:
+                        L = len(rc["seq"])
+                        Wf = rng.choice([1, 2, r - 1 if r > 1 else 1, r, r + 1, r + 2, 2 * r + 1, L, 5000, rng.randrange(1, r + 3)])
+                        Cf = rng.choice([0, 1, 2, r, 50])
+                        ops += ["readwin C=%d W=%d" % (Cf, Wf)] * ((L + Wf - 1) // Wf + 1)
+                        ops.append("geom")
+                        Wr = rng.choice([1, 1, 2, 3, r - 1 if r > 1 else 1, r, r + 1, r + 2, rng.randrange(1, r + 3), rng.randrange(1, r + 3)])
+                        Cr = rng.choice([0, 0, 1, 2, r, 50])
+                        ops += ["readwin C=%d W=%d" % (Cr, -Wr)] * ((L + Wr - 1) // Wr + 1)
+                        ops.append("reuse")
+                    ops += ["readwin C=0 W=10", "close"]
+                out.append({"name": "layout%d" % c, "ops": ops, "sticky": 1, "meta": {"kind": kind, "geom": "layout", "nrec": len(meta["recs"])}})
+                continue
+            fmt = "fasta"
+            if rng.random() < 0.22:
+                fmt = rng.choice(["embl", "uniprot", "genbank", "ddbj"])
+                if fmt == "uniprot":
+                    kind = "amino"
+                data, meta = S.gen_linebased(rng, fmt, kind, tier=ctx.tier)
+            else:
+                data, meta = S.gen_fasta(rng, ctx.tier, kind)
             nrec = len(meta["recs"])
-            ops = ["file ext=fa hex=" + hx(data)]
+            ops = ["file ext=dat hex=" + hx(data), "open fmt=%s abc=text B=4096" % fmt] + ["read"] * (nrec + 1) + ["close"]
             nsess = rng.choice([2, 3, 4])
             for s in range(nsess):
                 abc = rng.choice(["text", "text", kind])
                 B = rng.choice(S.BSIZES + [rng.randrange(1, 40)])
                 if sum(len(r["seq"]) for r in meta["recs"]) > 4000 and B < 7:
                     B = rng.choice([7, 64, 4096])
-                ops.append("open fmt=fasta abc=%s B=%d" % (abc, B))
-                mode = rng.choice(["read", "info", "seq", "mixed", "win", "win", "winrev", "rt"])
+                ops.append("open fmt=%s abc=%s B=%d" % (fmt if rng.random() < 0.8 else "unknown", abc, B))
+                mode = rng.choice(["read", "info", "seq", "mixed", "win", "win", "winrev", "rt" if fmt == "fasta" else "winrev", "block"])
+                if mode == "block":
+                    total = sum(len(r["seq"]) for r in meta["recs"])
+                    lng = 1 if abc in ("dna", "rna") and rng.random() < 0.7 else 0
+                    ls = rng.choice([1, 2, 3, 8])
+                    mr = rng.choice([-1, 7, 20, 60, 100, 1000, max(1, total // 3)])
+                    ms = rng.choice([-1, -1, 1, 2])
+                    ini = rng.choice([0, 1])
+                    ctxv = rng.choice([0, 0, 3, 10])
+                    ncalls = min(80, (nrec + 2) if not lng else (nrec + 2 + (total // mr if mr > 0 else 0)))
+                    ops += ["readblock list=%d maxres=%d maxseq=%d init=%d long=%d ctx=%d" % (ls, mr, ms, ini, lng, ctxv)] * ncalls
+                    ops.append("close")
+                    continue
                 if mode in ("read", "info", "seq"):
                     ops += [{"read": "read", "info": "readinfo", "seq": "readseq"}[mode]] * (nrec + 1)
                 elif mode == "mixed":
